@@ -121,6 +121,7 @@ CHECKS = {
         runs=[
             dict(name="seq", run="^TestC14QueryChange$", checks=(600, 5000), shards=(4, 16), shrinktime="20s"),
             dict(name="handler", run="^TestC14Handler$", checks=(300, 3000), shards=(4, 16), shrinktime="20s"),
+            dict(name="handlermock", run="^TestC14HandlerMockEvents$", checks=(1000, 10000), shards=(2, 8), shrinktime="20s"),
             dict(name="regress", run="^TestRegressNilKeyAffected$", shards=(1, 1)),
         ],
     ),
